@@ -263,7 +263,8 @@ func (d *motionDetector) updateBackground(new_frame *cptvframe.Frame, prevFFC bo
 			copy(d.background.Pix[d.rowStop+y], d.background.Pix[d.rowStop-1])
 		}
 
-		return 0, true
+		// no mean has been computed yet, so the threshold must not be derived from it
+		return 0, false
 	}
 
 	var changed bool = false
